@@ -163,6 +163,17 @@ func (k *ctx) zeroCycleOnShortestWalk(s, t int) bool {
 	return false
 }
 
+// zeroCycleReps is the number of extra To/Between samples taken where the
+// returned path depends on the library's random choices.
+const zeroCycleReps = 8
+
+// randomised reports whether To/Between for (s,t) involve random choices that
+// are worth sampling repeatedly (small graphs with a zero-weight cycle on a
+// shortest walk).
+func (k *ctx) randomised(s, t int) bool {
+	return k.m.n <= enumMaxN && k.zeroCycleOnShortestWalk(s, t)
+}
+
 // uniqueRule checks the documented meaning of the unique result.
 func (k *ctx) uniqueRule(s, t int, unique bool) string {
 	set, known := k.shortSet(s, t)
@@ -219,9 +230,18 @@ func (k *ctx) compareSet(got [][]graph.Node, s, t int) string {
 }
 
 // wantAllPaths says whether the all-shortest-paths queries are made for (s,t).
+//
+// AllTo/AllBetween search the predecessor graph depth first from the target.
+// When zero-weight cycles lie on shortest walks that search can meet
+// exponentially many dead ends although few shortest paths exist; this is a
+// cost, not a correctness, matter, so beyond enumMaxN nodes the queries are
+// made only where no zero-weight cycle is involved.
 func (k *ctx) wantAllPaths(s, t int) bool {
 	_, known := k.shortSet(s, t)
-	return known
+	if !known {
+		return false
+	}
+	return k.m.n <= enumMaxN || !k.zeroCycleOnShortestWalk(s, t)
 }
 
 // ---- Shortest ---------------------------------------------------------------
@@ -298,7 +318,17 @@ func (k *ctx) checkAlts(name string, sp path.ShortestAlts, s int, skipSelf bool)
 			}
 			continue
 		}
-		if r := m.validPath(p, s, t, w); r != "" {
+		r := m.validPath(p, s, t, w)
+		if r == "" && k.randomised(s, t) {
+			// the path is chosen with the global RNG: sample a few more
+			for rep := 0; rep < zeroCycleReps && r == ""; rep++ {
+				p2, w2, _ := sp.To(tid)
+				if r = m.validPath(p2, s, t, w2); r != "" {
+					p = p2
+				}
+			}
+		}
+		if r != "" {
 			if k.zeroCycleOnShortestWalk(s, t) {
 				k.softFail(vk.Failf("zero-cycle-cut/invalid-path", "%s (ShortestAlts.To; a zero-weight cycle lies on a shortest walk): path %s: %s", k.where(name, s, t), showPath(p), r))
 			} else {
@@ -383,7 +413,16 @@ func (k *ctx) checkAll(name string, ap path.AllShortest, negCycles bool) *vk.Fai
 				}
 				continue
 			}
-			if r := m.validPath(p, s, t, w); r != "" {
+			r := m.validPath(p, s, t, w)
+			if r == "" && !k.negRow[s] && k.randomised(s, t) {
+				for rep := 0; rep < zeroCycleReps && r == ""; rep++ {
+					p2, w2, _ := ap.Between(sid, tid)
+					if r = m.validPath(p2, s, t, w2); r != "" {
+						p = p2
+					}
+				}
+			}
+			if r != "" {
 				if !k.negRow[s] && k.zeroCycleOnShortestWalk(s, t) {
 					k.softFail(vk.Failf("zero-cycle-cut/invalid-path", "%s (AllShortest.Between; a zero-weight cycle lies on a shortest walk): path %s: %s", k.where(name, s, t), showPath(p), r))
 				} else {
